@@ -199,6 +199,23 @@ template <int DIM, int ORDER> static void explore_factories(Ctx &c, long &id) {
   done:
     ++c.st.evaluations; std::string key = fmt("fac/%d/%d/%zu/%d", DIM, ORDER, bi, nc); if (!c.st.seen(key) && valid) ++c.st.nontrivial; c.st.cls("factories");
   }
+  // large coefficient counts (Dynamic only): every count up to 200, every derivative order. Known finding F3 (known_findings.txt): from 172
+  // coefficients on, the falling factorial (nc-1)!/(nc-1-k)! of the derivative-factor table overflows to +inf and inf * 0 is NaN; a failure at
+  // an order where that factor does NOT overflow is a different violation and is reported as such (attribute ffover=0).
+  if (ORDER == Eigen::Dynamic && DIM == 1) for (int nc = 13; nc <= 200; ++nc) {
+    long my = id++;
+    if (!c.mine(my)) continue;
+    std::string unit = str(my);
+    if (!c.begin(unit)) continue;
+    const auto &b = bps[1]; PP z = PP::zero(b, nc);
+    int bad_over = -1, bad_other = -1; double bt = 0;
+    if (!z.isInitialized() || z.getNumCoeffs() != nc || z.getBreakpoints() != b) bad_other = 0;
+    else for (int dk = 0; dk <= nc + 1; ++dk) { long double ff = 1; for (int q = 0; q < dk && q < nc - 1; ++q) ff *= (long double)(nc - 1 - q); const bool over = dk <= nc - 1 && ff > (long double)1.7976931348623157e308L * (1 - 1e-9L);
+      for (double t : {b.front() - 10.0, b[0], 0.5 * (b[0] + b[1]), b[2], b.back(), b.back() + 10.0}) { auto vz = z.evaluate(t, dk); ++c.st.comparisons; if (!(vz(0) == 0.0)) { if (over) { if (bad_over < 0) bad_over = dk; } else if (bad_other < 0) { bad_other = dk; bt = t; } } } }
+    if (bad_over >= 0) c.st.violate(unit, fmt("factory zero(breakpoints, %d): evaluate(t, %d) is not 0 (NaN): the falling factorial %d!/%d! of the derivative-factor table overflows", nc, bad_over, nc - 1, nc - 1 - bad_over), {{"what", "factory-zero-large"}, {"nc", fmt("%d", nc)}, {"ffover", "1"}});
+    if (bad_other >= 0) c.st.violate(unit, fmt("factory zero(breakpoints, %d): evaluate(%.6g, %d) is not 0 although no derivative factor overflows (or the object is not initialised as requested)", nc, bt, bad_other), {{"what", "factory-zero-large"}, {"nc", fmt("%d", nc)}, {"ffover", "0"}});
+    ++c.st.evaluations; if (!c.st.seen(fmt("facbig/%d", nc))) ++c.st.nontrivial; c.st.cls("factories: 13..200 coefficients");
+  }
   // zero() with the default coefficient count
   { long my = id++; if (c.mine(my) && c.begin(str(my))) { PP z = PP::zero({0.0, 1.0, 3.0}); ++c.st.evaluations; ++c.st.comparisons; c.st.seen(fmt("facdef/%d/%d", DIM, ORDER)); if (!z.isInitialized() || z.getNumCoeffs() != 1 || z.evaluate(0.5, 0).norm() != 0.0) c.st.violate(str(my), "zero(bp) with default coefficient count"); } }
 }
